@@ -236,6 +236,10 @@ func (this *RaftGroup) run() {
 				if err := this.processSnapshotFn(rd.Snapshot.Data); err != nil {
 					this.log.Fatal(err)
 				}
+				// The snapshot replaces the entries it covers, configuration changes included:
+				// the membership to record in later local snapshots is the snapshot's
+				confState := rd.Snapshot.Metadata.ConfState
+				this.raftConfState = &confState
 				if rd.Snapshot.Metadata.Index > lastAppliedIdx {
 					lastAppliedIdx = rd.Snapshot.Metadata.Index
 				}
